@@ -21,6 +21,8 @@
 //	switch with a tag  `switch e { case a, b: … default: … }` with an integer / bool tag (evaluated once) becomes the
 //	                tagless switch `case e == a || e == b` (then the if / else-if chain of trans_seq.go).
 //	hex.EncodedLen(n) = n * 2, hex.DecodedLen(n) = n / 2 (encoding/hex; only with T15.StdHexLen).
+//	T15.Loops / T15.Consts  the shape the area's proof scripts cover (loops per function, tables read); another shape is
+//	                refused: the area degrades with a NOTE (DESIGN 0.9) instead of raising an alarm about a proof.
 package main
 
 import (
@@ -51,6 +53,12 @@ type T15Spec struct {
 	ErrKinds  []ErrKind
 	OutParams bool
 	StdHexLen bool
+	// Shape: what the proof scripts of the area were written for.  Loops: function -> number of for / range statements in
+	// its body; Consts: the package-level string constants (tables) the translated functions may read.  Source that
+	// translates but has another shape (a second loop as a fast path, a new lookup table) is REFUSED, so that the area
+	// degrades to its last validated output with a NOTE instead of failing a proof that was never written for it.
+	Loops  map[string]int
+	Consts []string
 }
 
 func (s T15Spec) active() bool {
@@ -626,4 +634,36 @@ func (t *Translator) notKept15(fn *types.Func, i int) bool {
 		}
 	}
 	return true
+}
+
+// shape15: the loop count of the listed functions and the set of package-level string constants read (see T15Spec)
+func (t *Translator) shape15() {
+	for name, want := range t.spec.T15.Loops {
+		fd := t.byName[name]
+		if fd == nil {
+			continue
+		}
+		n := 0
+		ast.Inspect(fd.Body, func(m ast.Node) bool {
+			switch m.(type) {
+			case *ast.ForStmt, *ast.RangeStmt:
+				n++
+			}
+			return true
+		})
+		if n != want {
+			t.fail(fd, "%s has %d loops, the proof scripts of the area cover %d (restructured code: not a translation failure, the area degrades)", name, n, want)
+		}
+	}
+	if t.spec.T15.Consts != nil {
+		for name := range t.strNames {
+			ok := false
+			for _, c := range t.spec.T15.Consts {
+				ok = ok || c == name
+			}
+			if !ok {
+				t.fail(nil, "package-level string constant %s is read, which the proof scripts of the area do not know (restructured code: the area degrades)", name)
+			}
+		}
+	}
 }
